@@ -797,7 +797,9 @@ var (
 	urlUser   = rapid.SampledFrom([]string{"", "user", "user:pass", "user:", ":pass", "u%40x:p%3Aq", "xxxxx:xxxxx", "us er", "é:世", "a:b:c", "%zz"})
 	urlHost   = rapid.SampledFrom([]string{"", "host", "example.com", "EXAMPLE.com", "1.2.3.4", "[::1]", "[fe80::1%25eth0]", "[::1", "host:80", "host:", "[::1]:443", "host:port", "h ost", "é.com", "a%20b", "a%zz",
 		// ports that are all digits but no 16-bit numbers (net/url accepts any digits), zero and zero-padded ports
-		"host:65535", "host:65536", "example.com:99999", "[::1]:100000", "h:0", "h:00080", "h:18446744073709551616"})
+		"host:65535", "host:65536", "example.com:99999", "[::1]:100000", "h:0", "h:00080", "h:18446744073709551616",
+		// the scheme's default port written out, on names and on IPv6 literals whose last group looks like a port
+		"example.com:80", "example.com:443", "[2001:db8::abcd]:80", "[2001:db8::abcd]:443", "[2001:db8::443]:443", "[::ffff:80]:80", "[fe80::1%25eth0]:443", "1.2.3.4:80"})
 	urlSeg = rapid.SampledFrom([]string{"", "a", "b", "%2F", "%20", " ", ";", "@", "é", "世", "..", ".", "a b", "%zz", "%", ":", "*", "\\", "\"", "<", ">", "'", "|", "^", "`", "{", "}", " ", "\x7f", "\x00"})
 	urlQ   = rapid.SampledFrom([]string{"", "x=1", "x=1&y=2", "y=<2>", "q=\"a\"", "a='b'", "a=\\", "a=+", "é=世", "a= ", "a=%26", "a=%zz", "&&", "=", "a=b c", "a=#",
 		// texts copied out of JSON / JS / HTML sources without decoding, astral and tag characters
